@@ -19,4 +19,9 @@ CHECKS = {
   "text": "Proof: numbers_dense, finished_frozen, deleted_gone, claim_once, read-your-writes/frame, template_stored_fieldwise, id freshness, compat equivalence hold for every reachable state of the contract model (no bound on history length). Tie: each generated history is executed call by call on in-memory, SQLite RDB, cached RDB, journal (file with both locks, fakeredis) and the gRPC proxy over each, and outputs / error classes / the whole readable state are compared with the Lean model run by the compiled driver; a disagreement is a violation of that backend with the minimised history as replay.",
   "note": TB + "The tie samples histories (it does not prove that the Python backends refine the contract); SQLite stands for every RDB, fakeredis for Redis; contract loosenesses U1-U5 (DESIGN.md section 2) are accepted either way; known finding F12 (SQLite id reuse).",
  },
+ "C06": {
+  "technique": "Lean 4 proof on an implementation-shaped model of JournalStorageReplayResult (replay = fold of a worker-independent transformer; sync invariant by induction) + correspondence check in which the model replays the records actually read from the real log",
+  "text": "Proof (all logs, workers, batch splits, sync points, snapshot positions): applyAll_pub / issuer_independent (public state is a fold of a transformer that does not depend on the replaying worker), replay_is_fold (batch splits), applyLogs_prefix + sync_keeps_synced (a sync aborted by the issuer's own error leaves the cursor just past the record and the invariant 'state = replay of the prefix read'), workers_converge, rejected_changes_nothing (raised only at the issuer, no worker's state changes), snapshot_plus_tail. Tie: 2-4 real JournalStorage workers on one file/fakeredis log; after every call the Lean replicas are fed the records read back from the log and must agree on error class at the issuer, returned ids, claim answers and the whole readable state; plus fresh replay, batch replay under an existing worker identity, snapshot restore. The property itself is also checked directly on the implementation (all views equal; a rejected call changes no worker's view).",
+  "note": TB + "pickle fidelity of snapshots is trusted (exercised); records are re-encoded (floats -> exact rationals) by the harness before the model reads them; JournalOperation codes are compared with the table the model assumes on every run.",
+ },
 }
